@@ -249,6 +249,7 @@ class lb_change_focus_scroll:
         P.bump(st, s._body)
         now = walker_focus(s, "now")
         st.assume(both(neg(mk_bool(now[0].isnone)), now[1] == a.position, eq(val(now[0]), tw)))
+        W.bump(st, tw)  # move_cursor_to_coords may have been called on the new focus widget: it is in a new state
 
     def ensures_callee(old, s, a, result):
         tw, rows, final = cur().ghost["cf_target"]
@@ -810,27 +811,86 @@ lb_keypress_down_empty = _empty_key_contract("_keypress_down")
 # ------------------------------------------------------------------------------------------------ keypress (dispatch)
 
 
-def _page_stub(name):
-    @contract(LBX + f"ListBox.{name}", property=(), assumed=True, alias="C07-page",
-              notes="the 'page up' / 'page down' procedure (~190 lines: candidate table, snapping, retries through calculate_visible) as keypress sees it: "
-                    "may move the focus and rewrite offset_rows / inset_fraction / pref_col; returns None (handled) or True; NOTHING is assumed about the state "
-                    "it leaves (keypress claims nothing after these two commands beyond 'None or the key'); exercised by bounded/C07.py")
+T_ITEM = Tup(Int, WIDGET, Int, Dim)  # an entry of the candidate table `t`: (row offset after the page, widget, position, rows)
+_PAGE_SHAPES = {"t": ListOf(T_ITEM), "widget": Opt(WIDGET), "pos": Int, "rows": Dim, "bad_choices": ListOf(Int), "good_choices": ListOf(Int)}
+_PAGE_STATE = ("self.offset_rows", "self.inset_fraction", "self.pref_col")
+
+
+def _page_loop_listed(v):
+    """Loop 0: one table entry per listed item, after the focus widget's."""
+    return Q.seq_len(v.t) == 1 + v.i_
+
+
+def _page_loop_fetch(v):
+    """Loop 1: entries appended for the items fetched; the snap region starts inside the table."""
+    return both(Q.seq_len(v.t) >= 1, 1 <= v.snap_region_start, v.snap_region_start <= Q.seq_len(v.t))
+
+
+def _page_loop_try(v):
+    """Loops 2 and 3 (trying candidates): an earlier iteration may have moved the focus and rewritten the scroll state
+    through change_focus -- whatever it left is sane, the list is not empty, nothing is pending.  (The walker is given a new
+    state version when the invariant is assumed: the arbitrary iteration starts from an arbitrary such state.)"""
+    st = cur()
+    if st.ghost.get("inv_assuming"):
+        PROTOCOLS["ListWalker"].bump(st, v.self._body)
+    return both(lb_ok(v.self), nonempty(v.self), no_change_pending(v.self))
+
+
+def _page_contract(name):
+    @contract(LBX + f"ListBox.{name}", property=("C07", "C08"), replayable=False, contract_overrides={_CF: lb_change_focus_scroll}, abstract_contains=True)
     class k:
+        """'page up' / 'page down' on a list that is not empty is always handled (None), and whatever candidate the procedure
+        settles on -- through change_focus, shift_focus and the intermediate calculate_visible calls, whose preconditions are
+        obligations here -- the scroll state it leaves is sane (`lb_ok`: what render asks) and the walker still has a focus.
+        The candidate table is never indexed out of range (IndexError / KeyError only when the walker refuses a position it
+        reported itself).  Not analysed: which candidate wins, by how many rows the view moves, and when ListBoxError (a
+        target whose height depends on focus, contracts of change_focus / shift_focus) can escape."""
+
         self_shape = LB
         params = dict(size=Tup(Int, Int))
         result = Opt(Bool)
-        raises = (_lbmod.ListBoxError, ValueError, IndexError, KeyError)
+        raises = (_lbmod.ListBoxError, IndexError, KeyError)
         modifies = ("offset_rows", "inset_fraction", "pref_col")
+        requires = staticmethod(_up_requires)
+        loops = {
+            0: Loop(invariant=_page_loop_listed, shapes=_PAGE_SHAPES),
+            1: Loop(invariant=_page_loop_fetch, shapes=_PAGE_SHAPES),
+            2: Loop(invariant=_page_loop_try, shapes=_PAGE_SHAPES, modifies=_PAGE_STATE),
+            3: Loop(invariant=_page_loop_try, shapes=_PAGE_SHAPES, modifies=_PAGE_STATE),
+            4: Loop(invariant=lambda v: True, shapes=_PAGE_SHAPES),
+        }
 
+        def ensures(old, s, a, result):
+            yield "always-handled", V.opt_isnone(result)
+            yield "scroll-state-sane", lb_ok(s)
+            yield "still-a-focus", neg(mk_bool(walker_focus(s, "exit")[0].isnone))
+
+        def on_raise(old, s, a, exc):
+            if exc.cls in (IndexError, KeyError):
+                yield f"only-when-the-walker-refuses-a-position-not-{exc.site}", str(exc.site) in ("opaque ListWalker.set_focus", "callee ListBox.change_focus")
+
+        # ---- callee use (keypress)
         def effects(old, s, a, result):
-            cur().ghost.setdefault("ran", []).append({"_keypress_page_up": "cursor page up", "_keypress_page_down": "cursor page down"}[name])
-            PROTOCOLS["ListWalker"].bump(cur(), s._body)
+            st = cur()
+            st.ghost.setdefault("ran", []).append({"_keypress_page_up": "cursor page up", "_keypress_page_down": "cursor page down"}[name])
+            PROTOCOLS["ListWalker"].bump(st, s._body)
 
+        def ensures_callee(old, s, a, result):
+            yield "always-handled", V.opt_isnone(result)
+            yield "scroll-state-sane", lb_ok(s)
+            yield "still-a-focus", neg(mk_bool(walker_focus(s)[0].isnone))
+
+        def on_raise_callee(old, s, a, exc):
+            return ()
+
+        static_checks = [_writes_within(LBX + f"ListBox.{name}", (), ("calculate_visible", "change_focus", "shift_focus", "update_pref_col_from_focus"))]
+
+    k.__name__ = f"lb_{name}"
     return k
 
 
-lb_page_up_stub = _page_stub("_keypress_page_up")
-lb_page_down_stub = _page_stub("_keypress_page_down")
+lb_keypress_page_up = _page_contract("_keypress_page_up")
+lb_keypress_page_down = _page_contract("_keypress_page_down")
 
 
 def _max_callee_side(reverse, valign):
@@ -882,15 +942,15 @@ def at_exit_versions(fn):
         st.ghost["ver"] = saved
 
 
-@contract(LBX + "ListBox.keypress", property=("C07", "C08"), replayable=False,
-          contract_overrides={LBX + "ListBox._keypress_page_up": lb_page_up_stub, LBX + "ListBox._keypress_page_down": lb_page_down_stub})
+@contract(LBX + "ListBox.keypress", property=("C07", "C08"), replayable=False)
 class lb_keypress:
     """A key goes to the focus widget first -- exactly once, only if it is selectable, at the size render draws it with
     ((maxcol,)) -- and to no other widget.  Handled there: None, and the focus widget is shifted so that the row of its cursor
     is a row of the box.  Otherwise what the focus widget gave back (the key itself if it was not asked) is looked up in the
     command map: 'up' / 'down' / 'home' / 'end' (and the page commands) go to their procedures and come back unchanged exactly
     when the procedure leaves them unhandled, with nothing changed; after a handled 'up' / 'down' the scroll state is sane and
-    a row of the focus widget is inside the box; every other key comes back unchanged, nothing changed.  An empty list gives
+    a row of the focus widget is inside the box; the page commands are always handled and leave a sane scroll state; every
+    other key comes back unchanged, nothing changed.  An empty list gives
     every key back."""
 
     self_shape = LBK
@@ -898,8 +958,8 @@ class lb_keypress:
     result = Opt(Opaque("Key"))
     missing_field = staticmethod(_lb_missing)
     # ListBoxError: 'up' / 'down' onto a widget whose height depends on focus (C07-KF1), or a page command; IndexError / KeyError:
-    # the walker refuses a position it reported; ValueError: page commands only (assumed stub)
-    raises = (_lbmod.ListBoxError, ValueError, IndexError, KeyError)
+    # the walker refuses a position it reported
+    raises = (_lbmod.ListBoxError, IndexError, KeyError)
     modifies = ("offset_rows", "inset_fraction", "pref_col", "set_focus_pending", "set_focus_valign_pending")
 
     def requires(s, a):
@@ -943,7 +1003,8 @@ class lb_keypress:
         yield "each-list-command-goes-to-its-procedure-once-and-no-other-runs", both(len(ran) <= 1, *[eq(cmd == c, ran == [c]) for c in NAV])
         yield "a-key-bound-to-no-list-command-comes-back-nothing-changed", implies(neg(is_nav), both(V.opt_eq(result, key2), unchanged))
         paging = either(cmd == "cursor page up", cmd == "cursor page down")
-        yield "an-unhandled-key-comes-back-nothing-changed", implies(both(neg(V.opt_isnone(result)), neg(paging)), unchanged)
+        yield "an-unhandled-key-comes-back-nothing-changed", implies(neg(V.opt_isnone(result)), unchanged)
+        yield "page-keys-are-always-handled-scroll-state-sane", implies(paging, both(V.opt_isnone(result), lb_ok(s), neg(mk_bool(now[0].isnone))))
         updown = either(cmd == "cursor up", cmd == "cursor down")
         no_rows = rows_of(val(now[0]), maxcol, True) == 0
         yield "after-a-handled-up-or-down-scroll-state-sane-focus-row-inside-the-box", implies(both(updown, V.opt_isnone(result)),
